@@ -177,7 +177,7 @@ class CayleyGraphDef:
             central_state = np.eye(generators[0].n, dtype=np.int64)
         central_state_list = CayleyGraphDef.normalize_central_state(central_state)
         n = generators[0].n
-        assert len(central_state) % n == 0, "Wrong size of central state."
+        assert len(central_state_list) % n == 0, "Wrong size of central state."
         return CayleyGraphDef(GeneratorType.MATRIX, [], generators, generator_names, central_state_list, name)
 
     def __post_init__(self):
